@@ -451,6 +451,12 @@ let rec fold_left f l a0 =
   | [] -> a0
   | b :: t0 -> fold_left f t0 (f a0 b)
 
+(** val filter : ('a1 -> bool) -> 'a1 list -> 'a1 list **)
+
+let rec filter f = function
+| [] -> []
+| x :: l0 -> if f x then x :: (filter f l0) else filter f l0
+
 (** val combine : 'a1 list -> 'a2 list -> ('a1 * 'a2) list **)
 
 let rec combine l l' =
@@ -2819,6 +2825,185 @@ let transpose_wrs s v m n0 a =
 let transpose_tiled s v m n0 a c0 =
   run_wrs s c0 (transpose_wrs s v m n0 a)
 
+type env = int -> int
+
+(** val eupd : env -> int -> int -> env **)
+
+let eupd e l x k =
+  if (=) k l then x else e k
+
+(** val uniq : int list -> int list **)
+
+let rec uniq = function
+| [] -> []
+| l :: r -> l :: (filter (fun k -> negb ((=) k l)) (uniq r))
+
+(** val count_occ_nat : int -> int list -> int **)
+
+let count_occ_nat l ls =
+  length (filter (fun k -> (=) k l) ls)
+
+(** val free_labels : int list -> int list **)
+
+let free_labels ij =
+  filter (fun l -> (=) (count_occ_nat l ij) (Stdlib.Int.succ 0)) (uniq ij)
+
+(** val ext_of : int -> int list -> int list -> int **)
+
+let rec ext_of l labels dims =
+  match labels with
+  | [] -> Stdlib.Int.succ 0
+  | k :: ks ->
+    (match dims with
+     | [] -> Stdlib.Int.succ 0
+     | d :: ds -> if (=) k l then d else ext_of l ks ds)
+
+(** val nloop :
+    (int * int) list -> (env -> 'a1 -> 'a1) -> env -> 'a1 -> 'a1 **)
+
+let rec nloop ls body e st =
+  match ls with
+  | [] -> body e st
+  | p :: r ->
+    let (l, d) = p in
+    fold_left (fun st0 x -> nloop r body (eupd e l x) st0) (seq 0 d) st
+
+(** val term :
+    scalar -> int list -> int list -> int list -> int list -> (int -> t) ->
+    (int -> t) -> env -> t **)
+
+let term s i j dimsA dimsB a b e =
+  s.smul (a (flat dimsA (map e i))) (b (flat dimsB (map e j)))
+
+(** val loop_labels :
+    int list -> int list -> int list -> int list -> (int * int) list **)
+
+let loop_labels i j dimsA dimsB =
+  map (fun l -> (l, (ext_of l (app i j) (app dimsA dimsB)))) (uniq (app i j))
+
+(** val out_labels : int list -> int list -> int list **)
+
+let out_labels i j =
+  free_labels (app i j)
+
+(** val out_dims :
+    int list -> int list -> int list -> int list -> int list **)
+
+let out_dims i j dimsA dimsB =
+  map (fun l -> ext_of l (app i j) (app dimsA dimsB)) (out_labels i j)
+
+(** val einsum_general :
+    scalar -> int list -> int list -> int list -> int list -> (int -> t) ->
+    (int -> t) -> int -> t **)
+
+let einsum_general s i j dimsA dimsB a b =
+  let o = out_labels i j in
+  let od = out_dims i j dimsA dimsB in
+  nloop (loop_labels i j dimsA dimsB) (fun e out ->
+    let p = flat od (map e o) in
+    (fun q ->
+    if (=) q p then s.sadd (out q) (term s i j dimsA dimsB a b e) else out q))
+    (fun _ -> 0) (fun _ -> s.s0)
+
+(** val nthl : int list -> int -> int **)
+
+let nthl l i =
+  nth i l 0
+
+(** val match_from_end_aux :
+    int -> int list -> int list -> int -> int -> bool **)
+
+let rec match_from_end_aux fuel i0 i1 n0 n1 =
+  (fun fO fS n -> if n=0 then fO () else fS (n-1))
+    (fun _ -> false)
+    (fun f ->
+    if (=) (nthl i1 n1) (nthl i0 n0)
+    then if (=) n1 0
+         then true
+         else if (=) n0 0
+              then true
+              else match_from_end_aux f i0 i1 (sub n0 (Stdlib.Int.succ 0))
+                     (sub n1 (Stdlib.Int.succ 0))
+    else false)
+    fuel
+
+(** val match_indices_from_end : int list -> int list -> bool **)
+
+let match_indices_from_end i0 i1 =
+  match_from_end_aux (add (length i0) (length i1)) i0 i1
+    (sub (length i0) (Stdlib.Int.succ 0))
+    (sub (length i1) (Stdlib.Int.succ 0))
+
+(** val match_from_start_aux :
+    int -> int list -> int list -> int -> int -> bool **)
+
+let rec match_from_start_aux fuel i0 i1 n0 n1 =
+  (fun fO fS n -> if n=0 then fO () else fS (n-1))
+    (fun _ -> false)
+    (fun f ->
+    if (=) (nthl i1 n1) (nthl i0 n0)
+    then if (=) n1 (sub (length i1) (Stdlib.Int.succ 0))
+         then true
+         else if (=) n0 (sub (length i0) (Stdlib.Int.succ 0))
+              then true
+              else match_from_start_aux f i0 i1 (add n0 (Stdlib.Int.succ 0))
+                     (add n1 (Stdlib.Int.succ 0))
+    else false)
+    fuel
+
+(** val match_indices_from_start : int list -> int list -> bool **)
+
+let match_indices_from_start i0 i1 =
+  match_from_start_aux (add (length i0) (length i1)) i0 i1 0 0
+
+(** val match_two_ends_aux :
+    int -> int list -> int list -> int -> int -> int -> bool **)
+
+let rec match_two_ends_aux fuel i0 i1 nc n0 n1 =
+  (fun fO fS n -> if n=0 then fO () else fS (n-1))
+    (fun _ -> false)
+    (fun f ->
+    if (=) nc 0
+    then false
+    else if (=) nc (Stdlib.Int.succ 0)
+         then (=) (nthl i1 n1) (nthl i0 (add (sub n0 nc) (Stdlib.Int.succ 0)))
+         else if (=) (nthl i1 n1)
+                   (nthl i0 (add (sub n0 nc) (Stdlib.Int.succ 0)))
+              then match_two_ends_aux f i0 i1 (sub nc (Stdlib.Int.succ 0)) n0
+                     (add n1 (Stdlib.Int.succ 0))
+              else false)
+    fuel
+
+(** val no_of_unique : int list -> int **)
+
+let no_of_unique ls =
+  length (uniq ls)
+
+(** val is_mat_vec : int list -> int list -> bool **)
+
+let is_mat_vec i0 i1 =
+  (&&) (match_indices_from_end i0 i1) (negb ((=) (length i0) (length i1)))
+
+(** val is_vec_mat : int list -> int list -> bool **)
+
+let is_vec_mat i0 i1 =
+  (&&) (match_indices_from_start i0 i1) (negb ((=) (length i0) (length i1)))
+
+(** val is_mat_mat : int list -> int list -> bool **)
+
+let is_mat_mat i0 i1 =
+  let nc = sub (add (length i0) (length i1)) (no_of_unique (app i0 i1)) in
+  let is_inner =
+    (&&) ((=) (length i0) (length i1))
+      ((=) (no_of_unique (app i0 i1)) (length i1))
+  in
+  (&&)
+    ((&&) ((&&) (negb (is_mat_vec i0 i1)) (negb (is_vec_mat i0 i1)))
+      (negb is_inner))
+    (match_two_ends_aux
+      (add (add (length i0) (length i1)) (Stdlib.Int.succ 0)) i0 i1 nc
+      (sub (length i0) (Stdlib.Int.succ 0)) 0)
+
 (** val run_matmul_Z :
     cfg -> ety -> int -> int -> int -> z list -> z list -> z list **)
 
@@ -3114,3 +3299,20 @@ let run_transpose v m n0 =
 
 let run_invp =
   invp
+
+(** val run_einsum :
+    int list -> int list -> int list -> int list -> z list -> z list -> int
+    list * z list **)
+
+let run_einsum i j dimsA dimsB a b =
+  let od = out_dims i j dimsA dimsB in
+  (od,
+  (map
+    (Obj.magic einsum_general zS i j dimsA dimsB (fun p ->
+      nth p (Obj.magic a) (Obj.magic Z0)) (fun p ->
+      nth p (Obj.magic b) (Obj.magic Z0))) (seq 0 (prod0 od))))
+
+(** val run_classify : int list -> int list -> bool list **)
+
+let run_classify i j =
+  (is_mat_vec i j) :: ((is_vec_mat i j) :: ((is_mat_mat i j) :: []))
